@@ -14,6 +14,21 @@ const (
 	maxRefLen = 150
 )
 
+// limits are the length bounds of one generator: references, query, and the
+// lengths the founders are biased to.
+type limits struct {
+	minRef, maxRef int
+	minQ, maxQ     int
+	magic          []int
+}
+
+var smallLimits = limits{minRefLen, maxRefLen, 8, 180, []int{32, 64, 100}}
+
+// longLimits: sequences holding more than 255 4-mers (a shared-word count, and in
+// tandem repeats the count of a single word, no longer fits in 8 bits), up to the
+// length of the usual long barcodes.
+var longLimits = limits{150, 520, 100, 560, []int{255, 258, 259, 260, 300}}
+
 var editKinds = []string{"sid", "sid", "s", "i", "d", "si", "sd", "id"}
 
 // clip forces a length into [lo, hi] by construction: cut the tail, or append drawn symbols.
@@ -29,8 +44,9 @@ func clip(t *rapid.T, label, s string, lo, hi int, alphabet string) string {
 
 // center draws a family founder: random over the alphabet, or a tandem repeat of
 // a short motif (many repeated 4-mers: the shared-word count is a sum of minima).
-func center(t *rapid.T, label, alphabet string) string {
-	n := gen.Len(t, label+"_len", minRefLen, maxRefLen, 32, 64, 100)
+func center(t *rapid.T, label, alphabet string, lim limits) string {
+	minRefLen, maxRefLen := lim.minRef, lim.maxRef
+	n := gen.Len(t, label+"_len", minRefLen, maxRefLen, lim.magic...)
 	if rapid.IntRange(0, 7).Draw(t, label+"_repeat") == 0 {
 		motif := gen.Seq(t, label+"_motif", rapid.IntRange(1, 7).Draw(t, label+"_motiflen"), alphabet)
 		b := make([]byte, n)
@@ -88,6 +104,11 @@ type genInfo struct {
 
 // genDB draws a reference database of 2..maxRefs sequences with its taxonomy and a query.
 func genDB(t *rapid.T, maxRefs, maxTax int) (dbCase, genInfo) {
+	return genDBLim(t, maxRefs, maxTax, smallLimits)
+}
+
+func genDBLim(t *rapid.T, maxRefs, maxTax int, lim limits) (dbCase, genInfo) {
+	minRefLen, maxRefLen := lim.minRef, lim.maxRef
 	var c dbCase
 	var info genInfo
 	alphabet := rapid.SampledFrom([]string{"acgt", "acgt", "acgt", "acgt", "acg", "ac"}).Draw(t, "alphabet")
@@ -105,16 +126,16 @@ func genDB(t *rapid.T, maxRefs, maxTax int) (dbCase, genInfo) {
 	nfam := rapid.IntRange(1, min(4, n)).Draw(t, "nfam")
 	centers := make([]string, nfam)
 	for f := range centers {
-		centers[f] = center(t, fmt.Sprintf("center%d", f), alphabet)
+		centers[f] = center(t, fmt.Sprintf("center%d", f), alphabet, lim)
 	}
 
 	// the query: a relative of the founder of family 0 (0..6 edits, ends possibly
 	// changed), or an unrelated sequence
 	if rapid.IntRange(0, 11).Draw(t, "query_unrelated") == 0 {
 		info.QueryMode = "unrelated"
-		c.Query = gen.Seq(t, "query", gen.Len(t, "query_len", 8, 180, 20, 150), alphabet)
+		c.Query = gen.Seq(t, "query", gen.Len(t, "query_len", lim.minQ, lim.maxQ, minRefLen, maxRefLen), alphabet)
 	} else {
-		q, shape := derive(t, "query", centers[0], []int{0, 0, 1, 1, 2, 2, 3, 3, 4, 5, 6}, alphabet, 8, 180)
+		q, shape := derive(t, "query", centers[0], []int{0, 0, 1, 1, 2, 2, 3, 3, 4, 5, 6}, alphabet, lim.minQ, lim.maxQ)
 		c.Query, info.QueryMode = q, "derived_"+shape
 	}
 
